@@ -557,6 +557,7 @@ fn run_job(scen: &Value, names: &[String], job: &Value, budget: usize, want_ops:
     let trace_en = job.get("trace_enabled").and_then(|x| x.as_bool()).unwrap_or(false);
     let sticky = job.get("tail").and_then(|x| x.as_str()) == Some("sticky");
     let mut en_trace: Vec<Vec<String>> = vec![];
+    let mut kind_trace: Vec<String> = vec![];
     // spin detection for the systematic search: a thread whose last step repeated its previous observation (same load / failed
     // compare-exchange / failed try-lock on the same cell with the same result, no write to that cell in between) is waiting;
     // scheduling it again is a stutter step, so it is left out of the choice set while another thread can run
@@ -647,6 +648,9 @@ fn run_job(scen: &Value, names: &[String], job: &Value, budget: usize, want_ops:
                 }
             } else if want_ops {
                 ops.push(json!({"t": names[t], "k": "CallStart"}));
+            }
+            if trace_en {
+                kind_trace.push(desc.clone());
             }
             desc
         }};
@@ -861,6 +865,7 @@ fn run_job(scen: &Value, names: &[String], job: &Value, budget: usize, want_ops:
     out.insert("choices".into(), json!(choices_taken));
     if trace_en {
         out.insert("enabled".into(), json!(en_trace));
+        out.insert("kinds".into(), json!(kind_trace));
     }
     if want_ops {
         out.insert("ops".into(), Value::Array(ops));
